@@ -5,6 +5,7 @@ import (
 	"crypto/sha256"
 	"encoding/hex"
 	"fmt"
+	"io"
 	"math/rand"
 	"os"
 	"os/exec"
@@ -142,10 +143,41 @@ func (c cliResult) runtimeFault() bool {
 
 // runCLI runs the freshly built binary.
 func runCLI(env *Env, cwd string, stdin []byte, args ...string) cliResult {
+	return runCLIWith(env, cwd, bytes.NewReader(stdin), env.timeout, args...)
+}
+
+// pausedReader hands out the first part of the data, waits, and hands out the rest: input that arrives slowly
+// (`slow-command | crs-toolchain regex generate -`)
+type pausedReader struct {
+	data   []byte
+	cut    int
+	pause  time.Duration
+	at     int
+	paused bool
+}
+
+func (r *pausedReader) Read(b []byte) (int, error) {
+	if r.at >= r.cut && !r.paused {
+		r.paused = true
+		time.Sleep(r.pause)
+	}
+	if r.at >= len(r.data) {
+		return 0, io.EOF
+	}
+	end := len(r.data)
+	if r.at < r.cut {
+		end = r.cut
+	}
+	n := copy(b, r.data[r.at:end])
+	r.at += n
+	return n, nil
+}
+
+func runCLIWith(env *Env, cwd string, stdin io.Reader, timeout time.Duration, args ...string) cliResult {
 	cmd := exec.Command(env.cli, args...)
 	cmd.Dir = cwd
 	cmd.Env = append(os.Environ(), "NO_COLOR=1")
-	cmd.Stdin = bytes.NewReader(stdin)
+	cmd.Stdin = stdin
 	var so, se bytes.Buffer
 	cmd.Stdout = &so
 	cmd.Stderr = &se
@@ -163,7 +195,7 @@ func runCLI(env *Env, cwd string, stdin []byte, args ...string) cliResult {
 			code = -1
 		}
 		return cliResult{exit: code, stdout: so.Bytes(), stderr: se.Bytes()}
-	case <-time.After(env.timeout):
+	case <-time.After(timeout):
 		_ = cmd.Process.Kill()
 		<-done
 		return cliResult{exit: -1, timeout: true, stdout: so.Bytes(), stderr: se.Bytes()}
